@@ -183,7 +183,7 @@ def run(ctx):
                                            "families": ["normal", "exponential", "poisson", "geometric", "categorical", "negative binomial (r = 1, 7/2, 2/5)",
                                                         "translation wrapper around normal", "vector-normal (2-d, grid 3x3)"],
                                            "modes": ["weighted", "unweighted", "batch", "clone", "all log-weights shifted by -800 / +800 / -5000 (weighted), -800 (batch)"], "bounds": "sigmaMin 1e-3 / 1.5, lambdaMax 100 / 0.5"},
-                           "em": {"trajectories": b["runs"], "scenarios": 23, "epsilon": [1e-8, 1e-4, 1e-2], "maxSteps": [-1, 1, 3, 8]}}
+                           "em": {"trajectories": b["runs"], "scenarios": 25, "epsilon": [1e-8, 1e-4, 1e-2], "maxSteps": [-1, 1, 3, 8]}}
     ctx.extra["estimator_runs"] = summ["estimator_runs"]
     ctx.assumptions += ["NumericEstimator is not covered by the closed-form contract; logistic regression is covered by the stationarity events of EMTrace",
                         "the recomputed likelihood uses the distributions' own LogPdf (decided by C14/C15)"]
